@@ -10,11 +10,12 @@ TIE = ["Nsq.Tie.Restart"]
 PROPS = ["Nsq.Props.C05"]
 HARNESS = ["e5/replay_test.go", "e5/life_test.go", "e5/restart_test.go"]
 
-F9 = [("f9_pump_holds", "shutdown-while-pump-holds-message", None),
+F9 = [("f9_pump_holds", "shutdown-while-pump-holds-message", "pumpjoin"),
       ("f9_put_after_exit_check", "shutdown-while-publish-past-exit-check", "barrier"),
       ("exit_races_req", "shutdown-while-answer-in-progress:req", "anslock"),
       ("exit_races_req_deferred", "shutdown-while-answer-in-progress:req-deferred", "anslock"),
-      ("exit_races_touch", "shutdown-while-answer-in-progress:touch", "anslock")]
+      ("exit_races_touch", "shutdown-while-answer-in-progress:touch", "anslock"),
+      ("exit_races_new_topic_publish", "shutdown-while-publish-creates-topic", "gettopicguard")]
 
 
 def tree_shape(ctx):
@@ -29,8 +30,13 @@ def tree_shape(ctx):
         m = re.search(r"def %s : List String := \[(.*?)\]" % name, txt, re.S)
         return re.findall(r'"([^"]*)"', m.group(1)) if m else []
     shape = {"barrier": fact("topicExitHead")[:3] == ["Lock", "CompareAndSwapInt32", "Unlock"],
-             "anslock": fact("reqCalls")[:3] == ["RLock", "RUnlock", "popInFlightMessage"] and
-                        fact("touchCalls")[:3] == ["RLock", "RUnlock", "popInFlightMessage"]}
+             "anslock": (fact("reqCalls")[:3] == ["RLock", "RUnlock", "popInFlightMessage"] or
+                         fact("reqCalls")[:5] == ["RLock", "RUnlock", "RLock", "RUnlock", "popInFlightMessage"]) and
+                        (fact("touchCalls")[:3] == ["RLock", "RUnlock", "popInFlightMessage"] or
+                         fact("touchCalls")[:5] == ["RLock", "RUnlock", "RLock", "RUnlock", "popInFlightMessage"]),
+             "gettopicguard": fact("getTopicExitGuard") == ["assign exiting := atomic.LoadInt32(&n.isExiting) == 1", "if exiting"],
+             "pumpjoin": fact("tcpCloseCalls") == ["Range", "Wait"] and
+                         fact("ioLoopJoin") == ["assign messagePumpDoneChan := make(chan struct{})"]}
     ctx.corr["race_model_of_tree"] = shape
     return shape
 
